@@ -21,6 +21,8 @@ CONFIG_FLAGS = {
     "dtostre": ["-DUSE_CUSTOM_DTOSTRE=1", "-DSIM_CONFIG_DTOSTRE"],
     # the documented extension points: user status registers (one group with transition filters) and a user error list
     "user": ["-DSCPI_USER_CONFIG=1", "-I" + os.path.join(SIM, "userconfig"), "-DSIM_CONFIG_USER"],
+    # cross product: the extension points of `user` in a build without device-dependent error information
+    "noinfouser": ["-DUSE_DEVICE_DEPENDENT_ERROR_INFORMATION=0", "-DSIM_CONFIG_NOINFO", "-DSCPI_USER_CONFIG=1", "-I" + os.path.join(SIM, "userconfig"), "-DSIM_CONFIG_USER"],
 }
 LIB_SRCS = ["error.c", "fifo.c", "ieee488.c", "minimal.c", "parser.c", "units.c", "utils.c", "lexer.c", "expression.c"]
 SAN = ["-fsanitize=address,undefined,float-cast-overflow", "-fno-sanitize-recover=all", "-fno-omit-frame-pointer"]
